@@ -228,7 +228,8 @@ pub fn from_processor_case(c: &serde_json::Value) -> DumpSpec {
             let f = |v: u64| if v == 0 { None } else { Some(v as u32) };
             spec.breakpad = Some((f(c["bp"]["dump"].as_u64().unwrap()), f(c["bp"]["req"].as_u64().unwrap())));
         }
-        spec.misc_pid = match c["misc"].as_str().unwrap() { "pid" => Some(Some(4242)), "nopid" => Some(None), _ => None };
+        spec.misc_pid = match c["misc"].as_str().unwrap() { "pid" | "pid_times" => Some(Some(4242)), "nopid" | "nopid_times" => Some(None), _ => None };
+        if matches!(c["misc"].as_str().unwrap(), "pid_times" | "nopid_times") { spec.misc_create_time = Some(1_600_000_000); }
         if c["status"] == "pid" { spec.proc_status = Some("Name:\tx\nPid:\t777\n".into()); }
         spec.modules = vec![ModuleSpec { base: 0x400000, size: 0x1000, name: "m1".into() }];
         // u3 covers none of the probed addresses but sorts between u1 and u2
